@@ -14,7 +14,7 @@
      [type_okb] (non-empty, no newline, no '.' before the first upper-case letter).  Where the pinned code violates the
      statement without them there is a [_refuted] theorem with the witness. *)
 From BP Require Import Base.Prelude Spec.PyImport Model.Importing.
-From BP Require Import Proofs.ImportingP Proofs.ImportingP2 Proofs.ImportingP3 Proofs.ImportingP4 Proofs.ImportingP5.
+From BP Require Import Proofs.ImportingP Proofs.ImportingP2 Proofs.ImportingP3 Proofs.ImportingP4 Proofs.ImportingP5 Proofs.ImportingP6.
 From BP Require gen.C13Tables.
 
 (* The main theorem: EVERY pair of package paths, of any depth (same / descendant / ancestor / root / sibling / cousin are
@@ -107,10 +107,10 @@ Print Assumptions C13_wellknown_time.
 Theorem C13_no_alias_clash :
   forall (cls_name snake optional : list byte -> list byte),
     (forall l, l <> [] -> forallb plain_segb l = true -> snake (py_join b_dot l) = py_join b_us l) ->
-    (forall T, type_okb T = true -> identb (cls_name T) = true /\ cls_startb (cls_name T) = true) ->
   forall (cur tgt1 tgt2 : list (list byte)) (T1 T2 : list byte) (u1 u2 pydantic : bool) s1 s2,
     plain_pkgb cur = true -> plain_pkgb tgt1 = true -> plain_pkgb tgt2 = true ->
     type_okb T1 = true -> type_okb T2 = true ->
+    cls_ok (cls_name T1) -> cls_ok (cls_name T2) ->
     path_eqb tgt1 google_protobuf = false -> path_eqb tgt2 google_protobuf = false ->
     snd (get_type_reference cls_name snake optional (py_join b_dot cur) (b_dot :: py_join b_dot (tgt1 ++ [T1])) u1 pydantic) = Some s1 ->
     snd (get_type_reference cls_name snake optional (py_join b_dot cur) (b_dot :: py_join b_dot (tgt2 ++ [T2])) u2 pydantic) = Some s2 ->
@@ -125,6 +125,42 @@ Example C13_no_alias_clash_nonvacuous :
   alias_of (imp_of (gtr [sa; sb] [sc; sd] t_T)) = Some [x5f; x5f; x63; x5f; x64; x5f; x5f] /\
   alias_of (imp_of (gtr [sa; sb] [sa; sc] t_T)) = Some [x5f; x63; x5f; x5f].
 Proof. exact no_alias_clash_example. Qed.
+
+(* all references of one module at once: the module runs the import lines of ALL its references (imports_end is a set, so
+   [order] is any list with exactly those lines) and evaluates every annotation in that one namespace: each reference still
+   denotes the class of its own target package.  Segments as in C13_no_alias_clash. *)
+Theorem C13_coexist :
+  forall (cls_name snake optional : list byte -> list byte),
+    (forall s, ident_chars (snake s)) ->
+    (forall l, l <> [] -> forallb plain_segb l = true -> snake (py_join b_dot l) = py_join b_us l) ->
+  forall (w : world) (root cur : list (list byte)) (pydantic : bool) (refs : list reference) (order : list (list byte)),
+    root <> [] -> plain_pkgb cur = true ->
+    (forall r, In r refs -> ref_ok cls_name w root r) ->
+    (forall s, In s order <-> exists r, In r refs /\ snd (ref_of cls_name snake optional cur pydantic r) = Some s) ->
+    exists e, exec_all w (root ++ cur) order = Some e /\
+      forall r, In r refs ->
+        resolve_annotation w (root ++ cur) e (fst (ref_of cls_name snake optional cur pydantic r))
+        = Some (VCls (root ++ r_tgt r) (cls_name (r_T r))).
+Proof. exact coexist. Qed.
+Print Assumptions C13_coexist.
+
+Example C13_coexist_hypotheses_satisfiable :
+  (forall s, ident_chars (snake_ex s)) /\
+  (forall l, l <> [] -> forallb plain_segb l = true -> snake_ex (py_join b_dot l) = py_join b_us l) /\
+  SNK (py_join b_dot [sc; sd]) = snake_ex (py_join b_dot [sc; sd]) /\
+  cls_ok (CLS t_T) /\ cls_ok (CLS t_Foo_Bar).
+Proof. exact coexist_hypotheses_satisfiable. Qed.
+
+Example C13_coexist_nonvacuous :
+  length co_order = 3%nat /\
+  forall order, order = co_order \/ order = rev co_order ->
+    match exec_all w_co [sr; sa; sb] order with
+    | Some e => map (fun r => resolve_annotation w_co [sr; sa; sb] e (fst r)) co_refs
+                = [Some (VCls [sr; sc; sd] (CLS t_T)); Some (VCls [sr; sa] (CLS t_T));
+                   Some (VCls [sr; sa; sb; sc] (CLS t_T)); Some (VCls [sr; sa; sb] (CLS t_T))]
+    | None => False
+    end.
+Proof. exact coexist_example. Qed.
 
 (* ---- refutations of the unconditional statement on the pinned code ---- *)
 (* K2: upper-case package segment *)
